@@ -278,8 +278,10 @@ def main():
         ],
         'checks': checks,
         'not_applicable': na,
-        'notes': 'exit codes: 0 held / 1 reproduced violation (VIOLATION line) / 2 harness error '
-                 '(never a VIOLATION). Known findings: /verif/known_findings.json.',
+        'notes': 'exit codes: 0 held on everything explored (KNOWN-FINDING / INCONCLUSIVE lines possible) / '
+                 '1 reproduced violation (VIOLATION line). Engine faults are reported as INCONCLUSIVE and '
+                 'exit 0 (exit 2 only under VERIF_STRICT=1, see DESIGN.md 12.2). Known findings: '
+                 '/verif/known_findings.json. Seeded changes and the catch matrix: /verif/seeded/.',
     }
     json.dump(m, open(os.path.join(VERIF, 'MANIFEST.json'), 'w'), indent=1)
     print('MANIFEST.json: %d checks, %d not_applicable' % (len(checks), len(na)))
